@@ -253,7 +253,7 @@ def run_exact(ctx, pp, torch):
             why = kernel_law(kid, p1, p2, x, out[1], out[2], out[3] if kid != 6 else None)
             if why:
                 ctx.violation('kernel:%s:closed-form' % KNAMES[kid], why, dict(kind='kernel-value', kid=kid, p1=p1, p2=p2, x=x))
-    body = ('From Coq Require Import QArith List. Import ListNotations.\nFrom PV Require Import Base.Num Model.Kernel.\n'
+    body = ('From PV Require Import Base.Num Model.Kernel.\nFrom Coq Require Import List ZArith QArith Bool. Import ListNotations.\n'
             'Eval vm_compute in kernel_exact_bad %s.\n' % coq_list(lits))
     res = run_case_files('C09', [('exact', body)], timeout=600)
     rc, out = res['exact']
@@ -347,7 +347,7 @@ def run_kernel_enclosure(ctx, pp, torch):
                     comps.append((3, g2, t2))
                 cases.append(dict(idx=i, expr='kernel_l %d %s %s %s' % (kid, rlit(p1), rlit(p2), rlit(x)), comps=comps))
     def coq():
-        return run_enclosure('C09', 'Model.Kernel', cases, prec=200, per_file=max(6, -(-len(cases) // NCPU)), timeout_goal=30, tag='kenc')
+        return run_enclosure('C09', 'Model.Kernel', cases, prec=200, per_file=max(6, -(-len(cases) // max(1, NCPU // 2))), timeout_goal=30, tag='kenc')
 
     def done(r):
         collect(ctx, r, cases, meta, 'kernel-enclosure')
@@ -574,8 +574,11 @@ def corrector_tensor(ctx, pp, torch, spec, Rb, Jb, batch, cases, meta):
     for i in range(nb):
         r, r1, r2 = true_rho(kind, p1, p2, F(xs[i]))
         thr = kind == 0 and F(xs[i]) == F(p1) ** 2
-        off1 = not math.isfinite(g1s[i]) or abs(mpf(g1s[i]) - r1) > 1e-9 * abs(r1) + 1e-300
-        off2 = g2s is not None and not thr and (not math.isfinite(g2s[i]) or abs(mpf(g2s[i]) - r2) > 1e-9 * abs(r2) + 1e-300)
+        t1 = t2 = 0.0
+        if not isinstance(kind, str) and math.isfinite(g1s[i]):
+            _, t1, t2 = kernel_tols(kind, p1, p2, xs[i], 0.0, g1s[i], 0.0 if g2s is None else g2s[i])
+        off1 = not math.isfinite(g1s[i]) or abs(mpf(g1s[i]) - r1) > 1e-9 * abs(r1) + 2 * t1 + 1e-300
+        off2 = g2s is not None and not thr and (not math.isfinite(g2s[i]) or abs(mpf(g2s[i]) - r2) > 1e-9 * abs(r2) + 2 * t2 + 1e-300)
         if off1 or off2:
             ctx.violation('autograd-contract:%s' % label, "compute_grads returned rho'=%r rho''=%r at x=%r, true values %s %s" % (g1s[i], None if g2s is None else g2s[i], xs[i], r1, r2), base)
     outs = {}
@@ -662,7 +665,7 @@ def run_correctors(ctx, pp, torch):
         Jb = [[[dy(rng, 3, 4) if rng.random() < 0.5 else rng.gauss(0, 2) for _ in range(p)] for _ in range(d)] for _ in kinds]
         corrector_tensor(ctx, pp, torch, spec, Rb, Jb, batch, cases, meta)
     def coq():
-        return run_enclosure_shared('C09', 'Model.Kernel', cases, prec=200, per_file=max(4, -(-len(cases) // NCPU)), timeout_goal=60)
+        return run_enclosure_shared('C09', 'Model.Kernel', cases, prec=200, per_file=max(4, -(-len(cases) // max(1, NCPU // 2))), timeout_goal=60)
 
     def done(r):
         collect(ctx, r, cases, meta, 'corrector-enclosure')
